@@ -357,11 +357,19 @@ class Check(PropertyCheck):
                   "the hand model; a lifting lemma (the callback inspects only membership of one needle and the first HTTP protocol) "
                   "extends every table theorem to offer lists of ANY length with repetitions, and the same theorems are proved for the "
                   "model over arbitrary byte strings; the upstream offers of tls_start_server are modelled and shown to make the guard "
-                  "hold whenever mitmproxy itself chose what to offer upstream. Model tied to the code on random callback inputs, on "
-                  "tls_start_server, and on real in-memory TLS handshakes against tls_start_client's SSL.Connection.")
+                  "hold whenever mitmproxy itself chose what to offer upstream; the whole server-first chain (upstream server with an "
+                  "arbitrary ALPN preference list or none -> tls_start_server offers -> recorded server.alpn -> callback) is modelled and "
+                  "proved at full strength without guard (eager_chain_mirrors, eager_chain_http2_off), as is the nested secure-web-proxy "
+                  "session (outer http/1.1 or none; the inner selection ignores the outer session: nested_inner_ignores_outer). Model tied to the code on random callback inputs, on "
+                  "tls_start_server, on real in-memory TLS handshakes against tls_start_client's SSL.Connection, and on the real layer stacks "
+                  "ServerTLSLayer>ClientTLSLayer and HttpProxy>ClientTLSLayer>HttpLayer>CONNECT>ClientTLSLayer with real NextLayer/TlsConfig "
+                  "hooks and real TLS peers, where the model PREDICTS the upstream server's choice, the upstream offers, the outer and the "
+                  "inner client protocol from the inputs alone.")
     level_note = ("trusted: Lean kernel; the translator's enumeration (table rows are results of real calls); OpenSSL/pyOpenSSL invoke the "
                   "select callback with the client's offer list and negotiate what it returns (checked by ~100+ real handshakes per run, "
-                  "not proved); TLS guarantees the upstream-negotiated protocol is one mitmproxy offered upstream. Two properties hold only "
+                  "not proved); the upstream server selects the first protocol of ITS preference list that was offered, or nothing (peerSelect: "
+                  "OpenSSL SSL_select_next_proto semantics, validated against CPython ssl servers in every run; a server selecting something "
+                  "that was not offered would break TLS). QUIC (quic_start_client / ClientQuicLayer) is fingerprinted but not driven. Two properties hold only "
                   "under the guard 'upstream protocol is among this client's offers / is not h2 when http2 is off'; outside it the real "
                   "callback falls back to the client's first HTTP protocol (recorded findings F-C18a, F-C18b; *_partial and "
                   "*_counterexample in Lean). Deviation from DESIGN §5: the table has offer lists of length <=3 (not <=4) and only the two "
